@@ -1,7 +1,7 @@
 (* C13 — obligations relating the text regenerated from oag.py / writable_database.py / units.py /
    types/time.py on this run (Gen.C13_Extracted) to the model the theorems are about. *)
 From Coq Require Import ZArith List String Bool Ascii Lia.
-From AV Require Import lib.Dates model.C13_Model model.C13_Parse.
+From AV Require Import lib.Dates model.C13_Model model.C13_Parse model.C13_Shape.
 From Gen Require Import C13_Extracted.
 Import ListNotations.
 Open Scope Z_scope.
@@ -57,3 +57,31 @@ Theorem C13_link_csv_conventions :
   /\ src_parse_days = parse_days.
 Proof. repeat split; reflexivity. Qed.
 Print Assumptions C13_link_csv_conventions.
+
+(* the instance arithmetic of _add_schedule: inclusive date range, weekday test, wall-clock time built first
+   and localised afterwards (departure in the origin's zone, arrival — day offset added to the date — in the
+   destination's), arrival-before-departure drop test, UTC day of the departure, and the number of kept
+   instances as the returned count *)
+Theorem C13_link_add_schedule :
+  sched_params = expected_sched_params /\ sched_range = expected_sched_range
+  /\ sched_weekday_skip = expected_sched_weekday_skip
+  /\ sched_dep_local = expected_sched_dep_local /\ sched_arr_local = expected_sched_arr_local
+  /\ sched_dep_utc = expected_sched_dep_utc /\ sched_arr_utc = expected_sched_arr_utc
+  /\ sched_drop_test = expected_sched_drop_test /\ sched_day = expected_sched_day
+  /\ sched_append = expected_sched_append /\ sched_insert_guard = expected_sched_insert_guard
+  /\ sched_insert_sql = expected_sched_insert_sql /\ sched_return = expected_sched_return
+  /\ sched_epoch = expected_sched_epoch.
+Proof. repeat split; reflexivity. Qed.
+Print Assumptions C13_link_add_schedule.
+
+(* the importer keeps no state between rows beyond its caches and logs; the distance rule reads only its
+   arguments, the geodesic and the warning types *)
+Theorem C13_link_importer_state :
+  importer_state = expected_importer_state /\ distance_check_names = expected_distance_check_names.
+Proof. split; reflexivity. Qed.
+Print Assumptions C13_link_importer_state.
+
+(* the direction-independent route key *)
+Theorem C13_link_od_pair : od_pair_expr = expected_od_pair_expr.
+Proof. reflexivity. Qed.
+Print Assumptions C13_link_od_pair.
